@@ -1,8 +1,157 @@
-"""C11 check(): reference diagnostics are sound, complete and total (structural clauses; DESIGN.md section 3, C11)"""
-from . import mir, panics, scopes
+"""C11 check(): reference diagnostics are sound, complete and total (structural clauses; DESIGN.md section 3, C11)
+
+R11-pure    check() only has shared access to a model without interior mutability (the borrow checker proves 'never modifies')
+R11-panic   panic obligations in everything reachable from checker::check
+R11-sites   every reference looked up by check() is looked up in its own namespace, with its own sentinel / THIS. convention,
+            and the set of covered reference sites does not shrink
+R11-guards  the conditions under which each diagnostic is pushed equal the reviewed table (oracle/diag_table.json)
+R11-list    the name-indexed lists the lookups rely on stay coherent (ItemList pairing rules of C13)
+"""
+import json
+import os
+import re
+from . import common, mir, sym, refs, panics, scopes, guards, diag, c13
+from .common import Finding
+
+PREFIX = "A2lFile.project/Project.module/"
+OPAQUE_VIEWS = [r"module::.*::(objects|compu_tabs|typedefs)"]
+
+
+def strip(p):
+    p = p[len(PREFIX):] if p.startswith(PREFIX) else p
+    # AnyCharacteristic / AnyObject style wrappers contribute a positional field `.0`
+    return "/".join(seg for seg in p.split("/") if not re.fullmatch(r"[A-Za-z]+\.\d+|[A-Za-z]+::[A-Za-z]+\.\d+", seg))
+
+
+def log_effect(b, S, ev):
+    if ev[1].endswith("Vec::push") and ev[7] and "A2lError" in ev[7][0]:
+        return "log " + guards.error_variant(b, ev[6])
+    return None
+
+
+def checker_table(prog):
+    A = sym.Analyzer(prog, opaque=OPAQUE_VIEWS + [r"checker::.*"])
+    fids = [f for f in scopes.check_scope(prog) if f.startswith("checker::")]
+    return diag.table_for(prog, A, fids, log_effect)
 
 
 def run(chk):
     prog = mir.prog()
-    panics.run_scope(chk, "R11-panic", prog, scopes.check_scope(prog), what="panic obligations in the functions reachable from checker::check", floor=5)
-    chk.assumptions += ["not decided: completeness beyond the covered reference sites"]
+    panics.run_scope(chk, "R11-panic", prog, scopes.check_scope(prog), what="panic obligations in the functions reachable from checker::check", floor=2)
+
+    # ------------------------------------------------------------------ R11-pure
+    b = prog.bodies.get("checker::check")
+    n = 0
+    if b is None:
+        chk.add(Finding("R11-pure", "R11-pure::anchor", "checker::check not found"))
+    else:
+        n += 1
+        ty = b.locals[1]["ty"]
+        if not re.fullmatch(r"&(\S+ )?specification::A2lFile", ty) or "mut" in ty:
+            chk.add(Finding("R11-pure", "R11-pure::signature", "checker::check takes %s: it must only get shared access to the model" % ty, b.where()))
+        for aid, adt in prog.adts.items():
+            for v in adt["variants"]:
+                for f in v["fields"]:
+                    n += 1
+                    if re.search(r"\b(Cell|RefCell|UnsafeCell|Mutex|RwLock|Atomic[A-Z]\w*|OnceCell|OnceLock)\b", f["ty"]):
+                        chk.add(Finding("R11-pure", "R11-pure::interior::%s.%s" % (aid, f["name"]), "%s.%s has type %s: shared access would no longer imply 'not modified'" % (aid, f["name"], f["ty"]), adt["file"]))
+    chk.rule("R11-pure", "check(&A2lFile) + no interior mutability in any type of the crate", n, floor=500)
+
+    # ------------------------------------------------------------------ R11-sites
+    n = refs.check_table_current(chk, "R11-table")
+    T = refs.table()
+    idx = {}
+    for k, ps in T["paths"].items():
+        for p in ps:
+            idx[p] = (k, T["fields"][k])
+    list_ns = {}
+    for ns, lists in T["namespaces"].items():
+        for l in lists:
+            list_ns[l] = ns
+    A = sym.Analyzer(prog, opaque=OPAQUE_VIEWS)
+    S = A.summary("checker::check") if b is not None else None
+    covered = {}
+    nsites = 0
+    if S is not None:
+        calls = [e for e in S.events if e[0] == "call"]
+        # sentinel comparisons and THIS. tests per key path
+        sent = {}
+        this = set()
+        for e in calls:
+            if re.search(r"PartialEq>?::(ne|eq)$|str::traits::(eq|ne)$|cmp::impls::(eq|ne)$", e[1]) and len(e[2]) >= 2:
+                for i in (0, 1):
+                    lits = {t[1] for t in e[2][1 - i] if isinstance(t, tuple) and t[0] == "const"}
+                    for t in e[2][i]:
+                        r, p = refs.term_path(t)
+                        if r == ("param", 1) and p and lits:
+                            sent.setdefault(strip(p), set()).update(l.strip('"') for l in lits)
+            if re.search(r"str::(starts_with|strip_prefix)$", e[1]) and len(e[2]) >= 2:
+                lits = {t[1].strip('"') for t in e[2][1] if isinstance(t, tuple) and t[0] == "const"}
+                if "THIS." in lits:
+                    for t in e[2][0]:
+                        r, p = refs.term_path(t)
+                        if r == ("param", 1) and p:
+                            this.add(strip(p))
+        for e in calls:
+            if not re.search(r"ItemList::(contains_key|get|index)$|HashMap::(get|contains_key)$|HashSet::contains$", e[1]) or len(e[2]) < 2:
+                continue
+            for kt in e[2][1]:
+                r, p = refs.term_path(kt)
+                if r != ("param", 1) or not p:
+                    continue
+                kp = strip(p)
+                site = idx.get(kp)
+                if site is None or site[1]["role"] != "ref":
+                    continue
+                nsites += 1
+                fn = prog.bodies.get(e[3])
+                ns = site[1]["ns"]
+                cover = set()
+                for t in e[2][0]:
+                    if isinstance(t, tuple) and t[0] == "call" and t[1].split("::")[-1] in ("objects", "compu_tabs", "typedefs"):
+                        cover |= set(T["namespaces"][t[1].split("::")[-1]])
+                    rr, pp = refs.term_path(t)
+                    if rr == ("param", 1) and pp and strip(pp) in list_ns:
+                        cover.add(strip(pp))
+                if not cover:
+                    continue
+                want = set(T["namespaces"].get(ns, []))
+                if cover != want:
+                    chk.add(Finding("R11-sites", "R11-sites::namespace::" + kp, "check() looks the reference %s (-> namespace %s) up in %s instead of %s: valid references are reported / missing targets are not" % (kp, ns, sorted(cover), sorted(want)), fn.where(e[4]) if fn else ""))
+                covered[kp] = True
+        for kp in sorted(covered):
+            site = idx[kp][1]
+            s_have = sent.get(kp, set())
+            s_want = {site["sentinel"]} if site.get("sentinel") else set()
+            if s_have != s_want:
+                chk.add(Finding("R11-sites", "R11-sites::sentinel::" + kp, "reference %s is compared with %s before the lookup; the grammar's 'no reference' value for it is %s" % (kp, sorted(s_have) or "nothing", sorted(s_want) or "none"), "a2lfile/src/checker.rs"))
+            if bool(site.get("this")) != (kp in this):
+                chk.add(Finding("R11-sites", "R11-sites::this::" + kp, "reference %s: THIS. handling %s, but the reference-site table says THIS. is %s here" % (kp, "present" if kp in this else "absent", "allowed" if site.get("this") else "not allowed"), "a2lfile/src/checker.rs"))
+    # covered set must not shrink
+    op = os.path.join(common.VERIF, "oracle", "check_sites.json")
+    if os.path.exists(op):
+        ref_cov = json.load(open(op))["covered"]
+        for kp in ref_cov:
+            if kp not in covered:
+                chk.add(Finding("R11-sites", "R11-sites::uncovered::" + kp, "check() no longer looks up the reference %s: a dangling reference there is not reported any more" % kp, "a2lfile/src/checker.rs"))
+    else:
+        chk.add(Finding("R11-sites", "R11-sites::oracle", "oracle/check_sites.json missing"))
+    chk.rule("R11-sites", "lookups of reference sites in check(): right namespace, sentinel, THIS. convention; covered set >= reviewed set", nsites, floor=55,
+             extra={"covered_sites": len(covered)})
+
+    # ------------------------------------------------------------------ R11-guards
+    diag.compare(chk, "R11-guards", "checker", checker_table(prog), "diagnostic push sites of checker.rs with their control predicates compared with the reviewed table", floor=40)
+
+    # ------------------------------------------------------------------ R11-list
+    sub = common.Check(chk.pid, chk.tier)
+    old = set(sym.TRANSPARENT_ADTS)
+    sym.TRANSPARENT_ADTS.clear()
+    try:
+        c13._run(sub, prog)
+    finally:
+        sym.TRANSPARENT_ADTS.update(old)
+    for f in sub.findings:
+        chk.add(Finding("R11-list", f.key.replace("R13-", "R11-list-"), "name lookups of check() rely on ItemList coherence: " + f.msg, f.where, f.detail))
+    chk.rule("R11-list", "ItemList pairing/lookup rules (see C13) that the checker's name lookups rely on", sum(r["instances"] for r in sub.rules), floor=50)
+    chk.assumptions += ["not decided: completeness beyond the covered reference sites (the property itself says 'covered reference')",
+                        "oracle/check_sites.json and oracle/diag_table.json are reviewed snapshots of semantic facts (site paths, control predicates), not of source text"]
